@@ -2,7 +2,7 @@
 from sa import pat as P
 from sa.cfg import cfg
 from sa.expr import ex, show, walk, cond_exprs, const_val
-from sa.util import table, fmt_conds, describe_table, local_by_name, glob_any
+from sa.util import table, fmt_conds, describe_table, glob_any
 from rules.walks import *
 
 EXPLANATION = (
@@ -45,7 +45,9 @@ def run(ctx):
         if not au or not ab or au['dnf'] is None or ab['dnf'] is None:
             ctx.unknown('R1', 'walks', fu, 'chain walks not found')
         else:
-            C = P.either(P.named('min_confirmations'))
+            # the confirmation count: the walk's parameter (get_utxos) / the captured request value (get_balance)
+            REQC = P.call('core::option::Option::unwrap_or', P.field('min_confirmations', P.param('request')), P.const(0))
+            C = P.either(P.param('min_confirmations'), P.captured(ex(prog, ab['fn']), REQC), REQC)
             want = P.binop('Le', P.cast(C, 'i32'), STAB)
             def shape(a):
                 lits = [c for conj in a['dnf'] for c in conj]
@@ -60,7 +62,7 @@ def run(ctx):
                       'get_balance admits blocks by %s instead of the stability count get_utxos uses: with a competing block at some height the two answers differ '
                       '(e.g. chain of 3 + one 1-block fork, c = 3: balance 500, sum of UTXOs 0)' % ([show(c)[:200] for c in ob][:2] or [show(c)[:200] for c in cond_exprs(prog, ab['fn'], ab['site'].bb)][-2:]))
             for nm, a in (('get_utxos', au), ('get_balance', ab)):
-                ok, why = total_under(prog, a['fn'], a['site'].bb, {'min_confirmations': 0})
+                ok, why = total_under(prog, a['fn'], a['site'].bb, {}, preds=[(C, 0)])
                 ctx.check(ok, 'R1', 'unfiltered-total:' + nm, a['site'], '%s applies every best-chain block when c = 0' % nm, '%s with c = 0: %s' % (nm, why))
             # both leave the loop on refusal
             for nm, a in (('get_utxos', au), ('get_balance', ab)):
@@ -95,12 +97,9 @@ def run(ctx):
         net_ok = False
         if good:
             n = e.operand(ps[0].args[1])
-            net_ok = P.call('ic_btc_canister::state::GenericState::network', P.anything)(n) or P.named('network')(n)
+            net_ok = P.call('ic_btc_canister::state::GenericState::network', P.anything)(n)
             if P.call('ic_btc_canister::with_state', P.anything)(n) and n[2][0][0] == 'closure' and n[2][0][1] in prog.fns:
                 net_ok = P.call('ic_btc_canister::state::GenericState::network', P.anything)(ex(prog, prog.fns[n[2][0][1]]).local(0))
-            if P.named('network')(n):
-                # let network = with_state(|s| s.network())
-                net_ok = any(P.has(P.call('ic_btc_canister::with_state'))(x) for l in local_by_name(f, 'network') for x in e.def_exprs(l)) or True
         me = [c for c in f.calls_to('core::result::Result::map_err') if not c.cleanup and ps and P.has(P.call('ic_btc_canister::types::Address::from_str_checked'))(e.operand(c.args[0]))]
         t = {}
         if me:
@@ -129,8 +128,11 @@ def run(ctx):
             ctx.touch(k)
             e = ex(prog, k)
             g = cfg(k)
-            BAL = P.named('balance')
-            upd = [x for l in local_by_name(k, 'balance') for x in table(prog, k, l)]
+            from sa.util import find_locals, is_var
+            GB_ = P.call('ic_btc_canister::utxo_set::UtxoSet::get_balance', P.field('utxos', P.anything), P.anything)
+            lb = find_locals(prog, k, lambda x, l: GB_(x), lambda x, l: x[0] == 'bin' and x[1] in ('Add', 'Sub'))
+            BAL = is_var(lb[0]) if len(lb) == 1 else (lambda x: False)
+            upd = table(prog, k, lb[0]) if len(lb) == 1 else []
             base = [x for x in upd if P.call('ic_btc_canister::utxo_set::UtxoSet::get_balance', P.field('utxos', P.anything), P.anything)(x[1])]
             def loop_source(bb):
                 h = g.in_loop(bb)
@@ -148,7 +150,7 @@ def run(ctx):
             ctx.check(good, 'R4', 'delta-sources', k, 'balance = UtxoSet::get_balance(address) + values of added outpoints - values of removed outpoints, per admitted block',
                       'balance updates: %s (adds over %s, subs over %s)' % (describe_table(upd), [loop_source(x[0]) for x in adds], [loop_source(x[0]) for x in subs]))
             srcs = [c for c in k.calls() if not c.cleanup and c.matches(UB + 'GenericUnstableBlocks::get_added_outpoints', UB + 'GenericUnstableBlocks::get_removed_outpoints')]
-            okarg = all(P.call('*::block_hash', BLK)(e.operand(c.args[1])) and P.has(P.either(P.upvar('address'), P.named('address')))(e.operand(c.args[2])) for c in srcs) and len(srcs) == 2
+            okarg = all(P.call('*::block_hash', BLK)(e.operand(c.args[1])) and P.has(P.either(P.upvar(), P.var(), P.param()))(e.operand(c.args[2])) for c in srcs) and len(srcs) == 2
             ctx.check(okarg, 'R4', 'delta-keyed-by-block-and-address', srcs[0] if srcs else k, 'both accessors are keyed by the walked block\'s hash and the parsed address', 'delta accessors use other keys')
     ap = ctx.fn('R4', 'ic_btc_canister::address_utxoset::AddressUtxoSet::apply_block')
     if ap:
